@@ -107,13 +107,30 @@ def t_ord_cmp(ctx, args, callee):
     raise Unmodelled('<String as Ord>::cmp on %r / %r' % (a, b))
 
 
-OVERRIDES = [(r'(^|::)parse_datetime$', parse_datetime_summary, 'summary:parse_datetime(rendered date)'),
-             (r'^<T as Ord>::cmp$|^<std::string::String as Ord>::cmp$', t_ord_cmp, 'model:<String as Ord>::cmp'),
-             (r'^chrono::Local::now$|^Local::now$', lambda ctx, a, c: DateTimeV(ctx.fresh_bv('now', 64)), 'chrono:Local::now'),
-             (r'^<NaiveDateTime as Datelike>::with_(year|month|day)$|^<NaiveDateTime as Timelike>::with_(hour|minute|second)$',
-              lambda ctx, a, c: some(DateTimeV(ctx.fresh_bv('dt', 64))), 'chrono:with_*(valid component)'),
-             (r'^<NaiveDateTime as Ord>::cmp$|^<chrono::NaiveDateTime as Ord>::cmp$',
-              lambda ctx, a, c: ctx.binop('Cmp', ctx.deref(a[0]).ts, ctx.deref(a[1]).ts, 'i64'), 'chrono:NaiveDateTime::cmp')]
+def _dt_cmp(ctx, a, c):
+    x, y = ctx.deref(a[0]), ctx.deref(a[1])
+    if hasattr(x, 'ts') and hasattr(y, 'ts'):
+        return ctx.binop('Cmp', x.ts, y.ts, 'i64')
+    from drivers.c19_fileinfo import CalDT
+    if isinstance(x, CalDT) and isinstance(y, CalDT):
+        lt = BoolVal(False); eq = BoolVal(True)
+        for p_, q_ in reversed(list(zip((x.y, x.m, x.d, x.h, x.mi, x.s), (y.y, y.m, y.d, y.h, y.mi, y.s)))):
+            lt = Or(p_ < q_, And(p_ == q_, lt)); eq = And(p_ == q_, eq)
+        return EnumV(z3.simplify(If(lt, BitVecVal(-1, 64), If(eq, BitVecVal(0, 64), BitVecVal(1, 64)))), {}, 'Ordering')
+    raise Unmodelled('NaiveDateTime::cmp of a parsed value with the clock-derived default')
+
+
+def _overrides():
+    # the clock and chrono's with_year / with_month / ... by their documented contract (None when the resulting date does not exist:
+    # 29 February moved to a common year, day 31 moved to a 30-day month): the comparator must not depend on the day the query is run
+    from drivers import c19_fileinfo
+    cal = [m_ for m_ in c19_fileinfo.models() if not m_[0].startswith('^zip::')]
+    return [(r'(^|::)parse_datetime$', parse_datetime_summary, 'summary:parse_datetime(rendered date)'),
+            (r'^<T as Ord>::cmp$|^<std::string::String as Ord>::cmp$', t_ord_cmp, 'model:<String as Ord>::cmp'),
+            (r'^<NaiveDateTime as Ord>::cmp$|^<chrono::NaiveDateTime as Ord>::cmp$', _dt_cmp, 'chrono:NaiveDateTime::cmp')] + cal
+
+
+OVERRIDES = _overrides()
 
 
 def key_exprs(prog, kinds):
@@ -174,8 +191,12 @@ mod verif_c05 {
 '''
 
 
-def native_cmp(query, a, b):
-    rc, lines, raw = common.native_unit('c05', 'src/util/mod.rs', NATIVE, 'util::verif_c05::run', '%s\t%s\t%s' % (query, '|'.join(a), '|'.join(b)))
+def native_cmp(query, a, b, clock=None):
+    """clock (y, m, d): every `Local::now()` of src/util/mod.rs is pinned to noon of that day in the scratch copy"""
+    subs = None
+    if clock:
+        subs = {'src/util/mod.rs': [('Local::now()', 'chrono::TimeZone::with_ymd_and_hms(&Local, %d, %d, %d, 12, 0, 0).unwrap()' % clock)]}
+    rc, lines, raw = common.native_unit('c05' + ('clk' if clock else ''), 'src/util/mod.rs', NATIVE, 'util::verif_c05::run', '%s\t%s\t%s' % (query, '|'.join(a), '|'.join(b)), subs=subs)
     d = {}
     for l in lines:
         for part in l.split(' '):
@@ -237,7 +258,19 @@ def fam_cmp(sess):
             if out[0] != 'ret':
                 if out[0] == 'panic':
                     if not box.get('viol'):
-                        sess.violated(name, 'cmp/panic', out[1], {}, None, 'cmp')
+                        now = ctx.ghost.get('now'); clock = None
+                        if now is not None:
+                            m = ctx.model()
+                            clock = tuple(m.eval(t, model_completion=True).as_long() for t in (now.y, now.m, now.d))
+                        key = [k for k in combo if k[2] != 'text'] or combo
+                        q = 'select name from . order by ' + ', '.join(k[0].lower() for k in combo)
+                        vals = [render_val(k[2], 86400 * 400 + i) if k[2] == 'date' else ('1' if k[2] in ('num', 'snum') else 'a') for i, k in enumerate(combo)]
+
+                        def rep(q=q, vals=vals, clock=clock):
+                            rc, dct, raw = native_cmp(q, vals, vals, clock)
+                            why = [l for l in raw.splitlines() if 'panicked' in l or 'unwrap' in l][:2]
+                            return rc != 0, 'native: %s ; rows %r vs %r with the clock at %r -> %s' % (q, vals, vals, clock, ('panics: %r' % why) if rc != 0 else dct.get('cmp'))
+                        sess.violated(name, 'cmp/panic/' + key[0][0] + ('/clock-dependent' if clock else ''), '%s (clock %r)' % (out[1][:160], clock), {'keys': label, 'clock': clock}, rep, 'cmp')
                     box['viol'] = True
                 else:
                     sess.inconclusive(name, str(out), 'cmp'); box['bad'] = True
